@@ -115,8 +115,9 @@ def Directives.canStaleWhileRevalidate (d : Directives) (age : Int) : Bool :=
 /-- `CacheControlDirectives.VaryByOrigin` -/
 def Directives.varyByOrigin (d : Directives) : Bool := d.vary.contains b!"origin"
 
-/-- `caching.normalizeEtag` = `strings.TrimLeft(s, "W/")`: a CUTSET trim -/
-def normalizeEtag (s : Bytes) : Bytes := trimLeft b!"W/" s
+/-- `caching.normalizeEtag` = `strings.TrimPrefix(s, "W/")`: ONE weak-validator prefix is removed
+    (it used to be `strings.TrimLeft(s, "W/")`, a CUTSET trim: the former finding C09-a, repaired) -/
+def normalizeEtag (s : Bytes) : Bytes := trimPrefix s b!"W/"
 
 /-- `rf.RequestHeaders["authorization"]` on the rule's override map (keys are unique in Go;
     the list keeps the first entry for a key) -/
